@@ -165,7 +165,13 @@ pub fn eval(c: &Case) -> Eval {
                             return Err(Fail::new(format!("step {}: finishing a sketcher that received no item returned normally and the sketcher publishes a sketch (u64 view {:x?})", step, &v.get("u64").unwrap()[..m.min(4)])));
                         }
                     }
-                    break; // the sketcher may be in an unspecified state after a reported failure
+                    // after the reported failure the sketcher may be in an unspecified state, but it still received no item: finishing it
+                    // again may fail again or not, yet it must never publish a sketch (there is no streamed item a position could hold)
+                    let _ = catch(|| s1.finish());
+                    if let Ok(v) = catch(|| s1.views()) {
+                        return Err(Fail::new(format!("step {}: after finishing a sketcher that received no item was reported as a failure, a second finishing step makes it publish a sketch although still no item was streamed (u64 view {:x?})", step, &v.get("u64").unwrap()[..m.min(4)])));
+                    }
+                    break;
                 }
                 for x in &xs {
                     streamed.insert(s1.hash_of(*x));
